@@ -37,6 +37,22 @@ func genC09(o *hx.Out, tier string) {
 						impl = "ok " + u(uint64(sw.ComponentID))
 					}
 					o.Add("init", impl, "winit", u(uint64(ver)), u(uint64(sys)), u(uint64(comp)), b2s(key))
+					// the same rules through a Node
+					nd := &gomavlib.Node{Endpoints: []gomavlib.EndpointConf{gomavlib.EndpointCustom{ReadWriteCloser: scn.NewPipe("c09init")}},
+						Dialect: d, OutVersion: gomavlib.Version(ver), OutSystemID: byte(sys), OutComponentID: byte(comp), HeartbeatDisable: true}
+					if key {
+						nd.OutKey = frame.NewV2Key(make([]byte, 32))
+					}
+					impl = "err"
+					if err := nd.Initialize(); err == nil {
+						impl = "ok " + u(uint64(nd.OutComponentID))
+						go func() {
+							for range nd.Events() {
+							}
+						}()
+						nd.Close()
+					}
+					o.Add("node init", impl, "winit", u(uint64(ver)), u(uint64(sys)), u(uint64(comp)), b2s(key))
 				}
 			}
 		}
